@@ -42,6 +42,12 @@ def run(replay=None):
         '(independent oracle: the generated tokens themselves), storage zero-initialised, also with array storage configured longer than the extents above it need; (b) construct from configurations and storage, read both back, rebuild a second field from what was read: '
         'configurations, storage, dump bytes and the value at sampled coordinates must be identical; compared with the model (parse_layers / fld_cfg_groups, theorems C17_*). '
         'A case = (stack, tokens); non-trivial = at least two configured layers; distinct by those.')
+    with core.Lock('coq'):
+        rep, tlog = core.translate()
+    for u in rep['untranslatable']:
+        if u['group'] == 'Ppf':
+            chk.obligation_broken('reading of ' + u['name'], u['why'])
+    chk.cov['helper_overloads_in_source'] = [o['depth'] for o in rep.get('ppf', {}).get('overloads', [])] if isinstance(rep.get('ppf'), dict) else None
     chk.prove('Properties_C17.v')
     r = chk.rng
     names = deep_stacks(r, thorough) + [n for n in sc.catalogue(chk, extra_random=12 if thorough else 4) if 'probe' not in n]
